@@ -43,27 +43,25 @@ Definition mk_op (s : str) : option str :=
   match skip_string [63; 61] s with Some r => Some r | None =>
   skip_string [61] s end end end end.
 
-(* one round of the loop over escaped hashes in parseVarnameOp: in the raw text a '#'
-   in the parameter of the variable name is still written as \# *)
-Definition escaped_hash_step : step := fun s =>
-  match skip_string [92; 35] s with
-  | Some s1 => s2 <- loop (bytes_or_expr Expr varparam_spec) s1 ;; Ok (Some s2)
-  | None => Ok None
-  end.
-
-(* parseVarnameOp(parser, initial): (varnameOp, spaceBeforeValue, rest) *)
+(* parseVarnameOp(parser, initial): (varnameOp, spaceBeforeValue, rest).
+   The variable name and the operator are parsed in the same text as in
+   matchVarassign (no comment, "\#" unescaped, no trailing blanks); their end is
+   mapped back to the raw text with getRawValueAlign. *)
 Definition parse_varname_op (initial : bool) (s : str) : res (str * str * str) :=
   if negb initial then
     let '(sp, r) := next_bytes is_hspace s in Ok ([], sp, r)
   else
     let mark := s in
-    '(_, s0) <- Varname s ;;
-    (* for lexer.SkipString("\\#") { for lexer.NextBytesSet(VarparamBytes) != "" || Expr() != nil { } } *)
-    s1 <- loop escaped_hash_step s0 ;;
-    let s2 := snd (next_bytes is_hspace s1) in
-    match mk_op s2 with
+    '(main0, _) <- unescape_comment s ;;
+    let main := rtrim_hspace main0 in
+    '(_, m1) <- Varname main ;;
+    let m2 := snd (next_bytes is_hspace m1) in
+    match mk_op m2 with
     | None => Panic                                      (* assert(ok) *)
-    | Some s3 =>
+    | Some m3 =>
+      let parsed := since main m3 in                     (* main[:len(main)-len(rest)] *)
+      ra <- get_raw_value_align s parsed ;;
+      s3 <- skip (length ra) s ;;
       let '(sp, r) := next_bytes is_hspace s3 in
       Ok (since mark s3, sp, r)
     end.
